@@ -12,7 +12,7 @@ mkdir -p "$D/repo"
 cp -r /repo/wn /repo/tests /repo/pyproject.toml "$D/repo/"
 ( cd "$D/repo" && git init -q . 2>/dev/null && git apply "$PATCH" )
 set +e
-WN_REPO="$D/repo" ./check "$ID" "$@"
+WN_REPO="$D/repo" VF_EVIDENCE_DIR="$D/evidence" ./check "$ID" "$@"
 rc=$?
 echo "mutant exit code: $rc"
 exit 0
